@@ -9,28 +9,21 @@ from ..common import ncpu
 PROP = "C05"
 
 
+def _key(x):
+    """Type-qualified structural rendering (floats by repr, so nan == nan and -0.0 != 0.0)."""
+    if isinstance(x, float):
+        return ("float", repr(x))
+    if isinstance(x, (list, tuple)):
+        return (type(x).__name__, tuple(_key(y) for y in x))
+    if isinstance(x, (set, frozenset)):
+        return (type(x).__name__, tuple(sorted((_key(y) for y in x), key=repr)))
+    if isinstance(x, dict):
+        return ("dict", tuple(sorted(((_key(k), _key(v)) for k, v in x.items()), key=repr)))
+    return (type(x).__name__, x)
+
+
 def deep_equal(a, b):
-    if type(a) is not type(b):
-        return False
-    if isinstance(a, float):
-        return repr(a) == repr(b)
-    if isinstance(a, (list, tuple)):
-        return len(a) == len(b) and all(deep_equal(x, y) for x, y in zip(a, b))
-    if isinstance(a, dict):
-        if len(a) != len(b):
-            return False
-        for k, v in a.items():
-            if k not in b:
-                return False
-            kb = next(x for x in b if x == k and hash(x) == hash(k))
-            if not deep_equal(k, kb) or not deep_equal(v, b[k]):
-                return False
-        return True
-    if isinstance(a, (set, frozenset)):
-        if a != b:
-            return False
-        return sorted(map(repr, a)) == sorted(map(repr, b))
-    return a == b
+    return _key(a) == _key(b)
 
 
 def registered():
